@@ -1,96 +1,100 @@
 """Which units decide which property (DESIGN §0, §4)."""
 
-TRUSTED_BASE = [
-    'A1 Verus 0.2026.09.13 + Z3, rustc 1.98.1; Kani 0.68 / CBMC 6.11; the weaver (self-check re-tokenises every spliced body)',
-    'A2 vstd specifications of Vec, slices, Option, ranges, min/unwrap_or',
-    'A7 machine arithmetic is NOT treated as mathematical (usize = u64 on x86-64; overflow obligations generated and discharged)',
-    'A10 configuration: the pinned build (io-uring driver; no allocator_api / read_buf features)',
-]
+TRUSTED_BASE = ['A1 Verus 0.2026.09.13 + Z3, rustc 1.98.1; Kani 0.68 / CBMC 6.11; the weaver (self-check re-tokenises every spliced body)',
+ 'A2 vstd specifications of Vec, slices, Option, ranges, min/unwrap_or',
+ 'A7 machine arithmetic is NOT treated as mathematical (usize = u64 on x86-64; overflow obligations generated and discharged)',
+ 'A10 configuration: the pinned build (io-uring driver; no allocator_api / read_buf features)']
 
-PROPS = {
-    'C10': {
-        'level': 'proof',
-        'verus': ['c10-view'],
-        'kani': ['c10', 'driver'],
-        'explanation': 'Verus proves the trait-level view contract for Slice/Uninit/ext methods for all nestings by induction '
-                       'over trait impls; Kani checks the same contract pointer-level on the real root types (bounded) and '
-                       'discharges the hand-off contract of IoBufExt::slice completely.',
-        'trusted': ['A3 root buffers (Vec<u8>, [u8], [u8;N], BytesMut, ArrayVec, SmallVec, Box<B>) satisfy the view contract: '
-                    'assumed in the Verus units (they are std/third-party containers behind unsafe from_raw_parts), exercised '
-                    'bounded by the Kani compose harnesses'],
-        'assumptions': [],
-    },
-    'C13': {
-        'level': 'proof',
-        'verus': ['c13-frame', 'c13-step'],
-        'kani': ['io'],
-        'explanation': 'Verus proves, for every buffer and every header value, that Frame arithmetic and LengthDelimited/NoopFramer '
-                       '::extract never overflow, never index out of bounds and never report a frame that does not fit the buffered '
-                       'bytes; Kani checks WHICH length is decoded (all 8 header bytes symbolic), encode/decode round trips, '
-                       'delimiter scanning and the cmsg builder/iterator round trip on the real code (bounded, listed separately).',
-        'trusted': ['A4 vshim: io::Error construction keeps only the kind (R7); u64::from_{be,le}_bytes are uninterpreted in '
-                    'Verus (R10), their meaning is checked by kani io lenfield::extract_hostile_header',
-                    'contracts of compio-buf views (common/buf.vrs) are assumed here and discharged by check C10'],
-        'assumptions': [],
-    },
-    'C11': {
-        'level': 'proof',
-        'verus': ['c11-loops', 'c11-buffer', 'c11-mem', 'c11-bufio'],
-        'kani': ['io'],
-        'explanation': 'Verus proves, on the synchronous projection of the real helper bodies (macros expanded), that read_exact(_at), '
-                       'read_to_end(_at), append, write_all(_at) transfer exactly the reference bytes for EVERY schedule of short '
-                       'transfers / Interrupted / errors / EOF allowed by the abstract reader/writer contract, preserve every '
-                       'other byte, and never let Interrupted escape; the real async code and the iterator-based / macro-generated '
-                       'in-memory implementations are checked by bounded Kani harnesses (listed separately).',
-        'trusted': ['A6 synchronous projection (R5): no cancellation of a helper future between two statements; abstract readers/'
-                    'writers obey the stream contract of common/stream.vrs (that IS the quantifier of C11; OS-backed implementors '
-                    'are not proved to obey it)',
-                    'A8 termination is not proved for the Interrupted-retry loops (exec_allows_no_decreases_clause)',
-                    'A3 Vec<u8> is a well-formed root (common/vecroot.vrs: axiom_vec_ok, vshim_vec_capacity/reserve)',
-                    'contracts of compio-buf views (common/buf.vrs) are assumed here and discharged by check C10'],
-        'assumptions': [],
-    },
-    'C06': {
-        'level': 'model_checking',
-        'kani': ['driver'],
-        'explanation': 'Bounded Kani check (never counted as proved) of the SharedFd protocol on the real compio-driver crate '
-                       '(unsync build): the descriptor is a token whose Drop counts; for <= 3 other holders and every release '
-                       'order: closed exactly once, never while another holder exists, take() completes at the first poll '
-                       'after the last release and not before, the registered waker fires at the last release, a second '
-                       'concurrent close is refused without stranding the first, a cancelled close neither closes early nor leaks.',
-        'trusted': ['A9 bounds as printed per harness; single thread (the `sync` feature / cross-thread releases are NOT covered); '
-                    'descriptor-producing operations (accept/open/socket/pipe) and cancel-vs-completion races are NOT covered (kernel side)'],
-        'assumptions': ['partial: only the in-process reference-count/waker protocol of SharedFd is under contract'],
-    },
-    'C09': {
-        'level': 'proof',
-        'verus': ['c09-timer'],
-        'explanation': 'PARTIAL proof: Verus proves, on the real bodies of TimerRuntime::{new, is_completed, insert, cancel, poll_timer} '
-                       'and of wake() up to (excluding) its final waker loop, that a key leaves the wheel only through wake with '
-                       'deadline <= now (never early), that wake removes every key with deadline <= now (always fires), that insert '
-                       'arms a fresh key or refuses a passed deadline, that cancel removes exactly its key, and that a timer future is '
-                       'Ready exactly when its key has left the wheel. Not covered: the waker loop of wake, update_waker, min_timeout '
-                       '(idle sleep bound), Sleep/Timeout/Interval futures. No bounded stand-in exists (Kani cannot execute BTreeMap).',
-        'trusted': ['A11 assumed std facts: BTreeMap::split_off returns exactly the entries >= the key (vshim_split_off), mem::replace, '
-                    'the derived Ord of TimerKey is lawful and lexicographic on (deadline, generation) (axiom_timerkey_ord, key_lt), '
-                    'Instant <= is the order of ns(), Instant::now() returns some instant; update_waker never adds/removes an entry (assumed contract)'],
-        'assumptions': ['partial: see explanation; the tail of wake() (R11) and update_waker are not under contract'],
-    },
-    'C12': {
-        'level': 'proof',
-        'verus': ['c11-buffer', 'c12-sync'],
-        'kani': ['io'],
-        'explanation': 'PARTIAL. Proved (Verus, real bodies): the Buffer behind both adapters (take/restore, advance drops exactly k '
-                       'pending bytes, reset, with_sync, flush_to with error safety: on Err exactly the unsent rest stays pending), and of '
-                       'the blocking-style adapter SyncReadBuf::{available_read, fill_buf, consume, is_eof} (queued bytes come out once, in '
-                       'order; empty answer only at EOF; WouldBlock otherwise) and SyncWriteBuf::flush_write_buf (a failed flush keeps '
-                       'exactly the unsent bytes; a retry sends them). Bounded (Kani, real SyncStream through its public API): limit '
-                       'honoured, short writes. NOT covered: SyncWriteBuf::write and SyncReadBuf::fill_read_buf (closures capturing &mut / '
-                       'async closures: outside Verus; too expensive for CBMC beyond the two shapes listed), the poll-style adapter '
-                       'AsyncStream (pinned self-referential futures, waker arrays: "every polling task is woken" is a schedule property).',
-        'trusted': ['H2 Buffer::compact_to preserves the pending bytes (assumed contract; bounded Kani harness io c11buf::buffer_advance_compact_fifo)',
-                    'A6 synchronous projection; abstract inner stream obeys the stream contract',
-                    'A3 Vec<u8> root axioms; compio-buf view contracts proved under C10'],
-        'assumptions': ['partial: see explanation'],
-    },
-}
+PROPS = {'C10': {'level': 'proof',
+         'verus': ['c10-view'],
+         'kani': ['c10', 'driver'],
+         'explanation': 'Verus proves the trait-level view contract (as_init/as_uninit position and length, set_len/advance frames, flatten, '
+                        'reserve/reserve_exact/extend_from_slice keep the view and its bytes) on the real bodies of Slice/Uninit/Box/AncillaryBuf, '
+                        'the extension traits, BufferRef arithmetic and the std::io adapters Reader/Writer of compio-buf/src/io.rs, for all nestings '
+                        'by induction over trait impls; Kani checks the same contract pointer-level on the real root types (bounded), the '
+                        'iterator-based vectored code (bounded), and discharges the hand-off contract of IoBufExt::slice completely.',
+         'trusted': ['A3 root buffers (Vec<u8>, [u8], [u8;N], BytesMut, ArrayVec, SmallVec, Box<B>) satisfy the view contract: assumed in the Verus '
+                     'units (they are std/third-party containers behind unsafe from_raw_parts), exercised bounded by the Kani compose harnesses',
+                     'hand-offs H5 (copy_within), H6 (as_mut_slice), H9 (ensure_init) and the raw copy of extend_from_slice (A4): ASSUMED contracts '
+                     'over unsafe/std code',
+                     'std io::Read for &[u8] (vshim_io_read_tmp), io::Error::other (payload dropped)'],
+         'assumptions': []},
+ 'C13': {'level': 'proof',
+         'verus': ['c13-frame', 'c13-step'],
+         'kani': ['io'],
+         'explanation': 'Verus proves, for every buffer and every header value, that Frame arithmetic and the extract/enclose functions of '
+                        'LengthDelimited, AnyDelimited, CharDelimited (extract) and NoopFramer never overflow, never index out of bounds, never '
+                        'report a frame that does not fit, with the extract decision pinned in both directions and enclose->extract round trips as '
+                        'lemmas; the data, refill, end-of-stream steps of the Framed read state machine and the data step of its write side by '
+                        'statement-range extraction; AncillaryBuilder::{new, push} (the cursor invariant, advance never beyond capacity, refused '
+                        'push records nothing) over ASSUMED raw-pointer contracts of CMsgIter/CMsgMut. Kani checks WHICH length is decoded (all 8 '
+                        'header bytes symbolic), the byte-conversion facts (complete), delimiter scanning and the cmsg builder/iterator round trip '
+                        'on the real code (bounded, listed separately).',
+         'trusted': ['A4 vshim: io::Error construction keeps only the kind (R7); u64::from_{be,le}_bytes are uninterpreted in Verus (R10), their '
+                     'meaning is checked by kani io lenfield::extract_hostile_header',
+                     'contracts of compio-buf views (common/buf.vrs) are assumed here and discharged by check C10',
+                     'H7 slice windows().position() = first occurrence (ASSUMED; bounded Kani delim::*); char::encode_utf8 yields 1..=4 bytes',
+                     'CMsgIter::{new,current_mut,next}, CMsgMut::{set_level,set_ty,encode_data}, CMSG_SPACE (libc macros over raw pointers): ASSUMED '
+                     'contracts; bounded Kani cmsg::*',
+                     'abstract Encoder/Decoder contracts as documented in codec/mod.rs; AsyncReadExt::append contract proved in c11-loops (C11)'],
+         'assumptions': []},
+ 'C11': {'level': 'proof',
+         'verus': ['c11-loops', 'c11-buffer', 'c11-mem', 'c11-bufio'],
+         'kani': ['io'],
+         'explanation': 'Verus proves, on the synchronous projection of the real helper bodies (macros expanded), that read_exact(_at), '
+                        'read_to_end(_at), append, write_all(_at), copy(_with_size), read_vectored_exact(_at), write_vectored_all(_at), Take, '
+                        'Buffer, BufReader (with_capacity, fill_buf, consume, read) and BufWriter (write, flush, flush_if_needed, shutdown) transfer '
+                        'exactly the reference bytes for EVERY schedule of short transfers / Interrupted / errors / EOF allowed by the abstract '
+                        'reader/writer contracts, preserve every other byte, and never let Interrupted escape; the in-memory implementors (&[u8], '
+                        'Cursor, [u8]::read_at/write_at, Vec<u8>::{write, write_at, read_at}) and BufReader::read are proved to OBEY the abstract '
+                        'contracts. The real async code and the iterator-based vectored implementations are checked by bounded Kani harnesses '
+                        '(listed separately).',
+         'trusted': ['A6 synchronous projection (R5): no cancellation of a helper future between two statements; abstract readers/writers obey the '
+                     'stream contract of common/stream.vrs (that IS the quantifier of C11; OS-backed implementors are not proved to obey it)',
+                     'A8 termination is not proved for the Interrupted-retry loops (exec_allows_no_decreases_clause)',
+                     'A3 Vec<u8> is a well-formed root (common/vecroot.vrs: axiom_vec_ok, vshim_vec_capacity/reserve)',
+                     'contracts of compio-buf views (common/buf.vrs) are assumed here and discharged by check C10',
+                     'H8 abstract vectored buffers: total_len/total_capacity/slice/slice_mut/VectoredSlice (iterator-based bodies) are ASSUMED '
+                     'contracts; bounded Kani c10 vectored::*',
+                     'A4 raw copies (slice_to_uninit / copy_nonoverlapping): ASSUMED'],
+         'assumptions': []},
+ 'C06': {'level': 'model_checking',
+         'kani': ['driver'],
+         'explanation': 'Bounded Kani check (never counted as proved) of the SharedFd protocol on the real compio-driver crate (unsync build): the '
+                        'descriptor is a token whose Drop counts; for <= 3 other holders and every release order: closed exactly once, never while '
+                        'another holder exists, take() completes at the first poll after the last release and not before, the registered waker fires '
+                        'at the last release, a second concurrent close is refused without stranding the first, a cancelled close neither closes '
+                        'early nor leaks.',
+         'trusted': ['A9 bounds as printed per harness; single thread (the `sync` feature / cross-thread releases are NOT covered); '
+                     'descriptor-producing operations (accept/open/socket/pipe) and cancel-vs-completion races are NOT covered (kernel side)'],
+         'assumptions': ['partial: only the in-process reference-count/waker protocol of SharedFd is under contract']},
+ 'C09': {'level': 'proof',
+         'verus': ['c09-timer'],
+         'explanation': 'PARTIAL proof: Verus proves, on the real bodies of TimerRuntime::{new, is_completed, insert, cancel, poll_timer, '
+                        'update_waker, min_timeout} and of wake() up to (excluding) its final waker loop, that a key leaves the wheel only through '
+                        'wake with deadline <= now (never early), that wake removes every key with deadline <= now (always fires), that insert arms '
+                        'a fresh key or refuses a passed deadline, that cancel removes exactly its key, that a timer future is Ready exactly when '
+                        'its key has left the wheel and a Pending one has registered a waker of the polling task, that min_timeout is the distance '
+                        'to the nearest deadline (idle sleep bound); Interval::tick keeps ticks aligned to start + k*period; Sleep::poll / '
+                        'Timeout::poll steps (ready at once for a passed deadline; inner result exactly when the inner future is ready at the poll). '
+                        'Not covered: the waker loop of wake, Runtime::poll_with/current_timeout, cancellation inside tick. No bounded stand-in '
+                        'exists (Kani cannot execute BTreeMap).',
+         'trusted': ['A11 assumed std facts: BTreeMap::{split_off, get_mut, first_key_value} (shims with stated specs), mem::replace, the derived '
+                     'Ord of TimerKey is lawful and lexicographic on (deadline, generation) (axiom_timerkey_ord, key_lt), Instant order and '
+                     'arithmetic over an uninterpreted ns(), Instant::now() returns some instant, Waker::will_wake(true)/clone wake the same task; '
+                     'abstract pollables (VPoll) for the pinned inner future / timer future'],
+         'assumptions': ['partial: see explanation; the tail of wake() (R11) is not under contract']},
+ 'C12': {'level': 'proof',
+         'verus': ['c11-buffer', 'c12-sync'],
+         'kani': ['io'],
+         'explanation': 'PARTIAL. Proved (Verus, real bodies): the Buffer behind both adapters (take/restore, advance, reset, with, with_sync, '
+                        'flush_to with error safety, compact_to), and of the blocking-style adapter SyncReadBuf::{available_read, fill_buf, consume, '
+                        'read, fill_read_buf, is_eof} and SyncWriteBuf::{write, flush_write_buf, has_pending_write} as whole functions (closures '
+                        'over &mut by instantiating Buffer::with/with_sync at the closure; closure bodies as statement ranges), plus the FIFO pipe '
+                        'invariants of both directions as composition lemmas. Of the poll-style adapter only replace_waker. Bounded (Kani, real '
+                        'SyncStream through its public API): limit honoured, short writes. NOT covered: read_buf_uninit/read_buf, into_inner, the '
+                        'rest of AsyncStream/AsyncWriteStream (pinned self-referential futures, waker arrays, poll_close ordering).',
+         'trusted': ['A6 synchronous projection; abstract inner stream obeys the stream contract',
+                     'A3 Vec<u8> root axioms incl. growable() (allocator does not fail); compio-buf view contracts proved under C10',
+                     'std io::Read for &[u8] (vshim_slice_io_read), Option::replace, Waker::will_wake/clone (assume_specification)'],
+         'assumptions': ['partial: see explanation']}}
